@@ -40,7 +40,7 @@ def r_capture(ctx):
         sh = g.ident_shape(n)
         ctx.ob('R17.0', 'shape:' + n, sh is not None and sh[0] == ALPHA and sh[1] == IDC, '%s = ASCII_ALPHA ~ (ASCII_ALPHANUMERIC | "_")*' % n, 'src/minimal.pest (%s)' % n)
     pos, fnd = g.keyword_capture()
-    ctx.floor(rid, 'competitor positions (look-aheads / earlier literal alternatives before a naming role)', len(pos), 7)
+    ctx.floor(rid, 'competitor positions (look-aheads / earlier literal alternatives before a naming role)', len(pos), 5)
     roles = {p[3] for p in pos}
     bad = {}
     for kind, rule, desc, w, free in fnd:
@@ -77,6 +77,8 @@ def r_names_raw(ctx):
         for f, bid, c, t in fx.callers_of('str::%s::as_inner' % wrapper):
             if f.macro:
                 continue
+            if re.match(r'^<str::%s as std::fmt::(Display|Debug)>::fmt$' % wrapper, f.path):
+                continue   # the wrapper printing its own text
             n += 1
             ctx.saw(f)
             ctx.ob(rid, 'as_inner:%s:%s' % (wrapper, f.path), f.path in allowed, 'raw access to a %s in %s%s' % (wrapper, f.path, ' (' + allowed[f.path] + ')' if f.path in allowed else ''), f.where(t['line']))
@@ -84,7 +86,7 @@ def r_names_raw(ctx):
     # "main" comparison is whole-string equality
     fa = ctx.anchor(fx, '<ast::Function as ast::AbstractSyntaxTree>::analyze')
     cmp_ok = False
-    for bid, c, t in fa.calls():
+    for bid, c, t in deep_calls(fx, fa):
         if re.search(r'::(ne|eq)$', c) and 'str' in t['f'].get('inst', ''):
             cmp_ok = True
     ctx.ob(rid, 'main:whole-string', cmp_ok and not fa.call_sites(lambda c: re.search(r'::(starts_with|ends_with|contains|find|eq_ignore_ascii_case|to_lowercase|to_ascii_lowercase|trim\w*)$', c) is not None),
@@ -105,7 +107,7 @@ def r_names_raw(ctx):
                 bad = [nm for nm in names if nm not in ('as_str', 'strip_prefix', 'unwrap', 'expect')]
                 m += 1
                 ctx.ob(rid, 'ctor:' + f.path, bool(ok), 'name = matched text of the pair (no trimming / case folding): %s' % sv(arg), f.where())
-    ctx.floor(rid, 'name constructors in the parser', m, 5)
+    ctx.floor(rid, 'name constructors in the parser', m, 3)
     # no string transformation functions anywhere on name types
     deny = re.compile(r'::(to_lowercase|to_uppercase|to_ascii_lowercase|to_ascii_uppercase|eq_ignore_ascii_case|make_ascii_lowercase|make_ascii_uppercase)$')
     for f, bid, c, t in fx.callers_of(lambda c: deny.search(c) is not None):
